@@ -199,6 +199,22 @@ func applyGov(s *scn, st CStep) {
 			tx = s.b.bvm(k, constant.AppchainMgrContractAddr, method+"Appchain", pb.String(target), pb.String("reason"))
 		}
 		s.add(tx, &txMeta{kind: "gov", sender: k, note: fmt.Sprintf("%s-%s/%s/%s", st.Act, st.Obj, role, target), target: target})
+	case "withdraw":
+		// the sponsor withdraws one of its open proposals (and goes on submitting operations afterwards)
+		gm := s.gov
+		var cands []string
+		for _, id := range gm.open {
+			if s.auditSponsor[id] != nil {
+				cands = append(cands, id)
+			}
+		}
+		if len(cands) == 0 {
+			return
+		}
+		pid := cands[st.N%len(cands)]
+		sp := s.auditSponsor[pid]
+		s.add(s.b.bvm(sp, constant.GovernanceContractAddr, "WithdrawProposal", pb.String(pid), pb.String("reason")), &txMeta{kind: "gov", sender: sp, note: "withdraw-proposal/sponsor/withdraw", target: "*"})
+		s.res.Count("gov_withdraw_submitted")
 	case "vote":
 		gm := s.gov
 		// target: one of the proposals known to be open, newest first; occasionally a finished or unknown one
@@ -674,7 +690,7 @@ func afterBlockGov(s *scn, h uint64, txs []*pb.BxhTransaction, metas []*txMeta, 
 	// finality: concluded proposals never change again
 	var ids []string
 	for id, mp := range gm.proposals {
-		if mp.concluded != "" && mp.concluded != "setup" && mp.endBlock < h && mp.endBlock+6 > h {
+		if mp.concluded != "" && mp.concluded != "setup" && mp.endBlock < h && mp.endBlock+12 > h {
 			ids = append(ids, id)
 		}
 	}
